@@ -31,7 +31,8 @@ enum class ubjson_errc
     number_too_large,
     max_nesting_depth_exceeded,
     key_expected,
-    max_items_exceeded
+    max_items_exceeded,
+    invalid_number
 };
 
 class ubjson_error_category_impl
@@ -72,6 +73,8 @@ public:
                 return "Text string key in a map expected";
             case ubjson_errc::max_items_exceeded:
                 return "Number of items in UBJSON object or array exceeds limit set in options";
+            case ubjson_errc::invalid_number:
+                return "High-precision number is not a number";
             default:
                 return "Unknown UBJSON parser error";
         }
